@@ -82,8 +82,9 @@ class StateMachine(metaclass=StateMachineMetaclass):
         self._callbacks = CallbacksRegistry()
         self._states_for_instance: Dict[State, State] = {}
 
-        self._listeners: Dict[Any, Any] = {}
-        """Listeners that provides attributes to be used as callbacks."""
+        self._listeners: List[Any] = []
+        """Listeners that provides attributes to be used as callbacks (kept by identity: a listener may
+        be unhashable, or compare equal to another one)."""
 
         if self._abstract:
             raise InvalidDefinition(_("There are no states or transitions."))
@@ -142,9 +143,9 @@ class StateMachine(metaclass=StateMachineMetaclass):
         self._callbacks = CallbacksRegistry()
         self._states_for_instance: Dict[State, State] = {}
 
-        self._listeners: Dict[Any, Any] = {}
+        self._listeners: List[Any] = []
 
-        self._register_callbacks(list(listeners.keys()))
+        self._register_callbacks(list(listeners))
         self._engine = self._get_engine(rtc)
         self._engine.start()
 
@@ -183,8 +184,13 @@ class StateMachine(metaclass=StateMachineMetaclass):
 
         return self
 
+    def _remember_listeners(self, listeners):
+        for listener in listeners:
+            if not any(listener is known for known in self._listeners):
+                self._listeners.append(listener)
+
     def _register_callbacks(self, listeners: List[object]):
-        self._listeners.update({listener: None for listener in listeners})
+        self._remember_listeners(listeners)
         self._add_listener(
             Listeners.from_listeners(
                 (
@@ -225,7 +231,7 @@ class StateMachine(metaclass=StateMachineMetaclass):
 
             :ref:`listeners`.
         """
-        self._listeners.update({o: None for o in listeners})
+        self._remember_listeners(listeners)
         return self._add_listener(
             Listeners.from_listeners(Listener.from_obj(o) for o in listeners),
             allowed_references=SPECS_SAFE,
